@@ -148,7 +148,7 @@ def sampler_apply(s, w, op):
 
 def sampler_build(hist, env):
     w = World(env)
-    s = emu.Sampler(w.circ["a"], w.inputs["10"], detector=emu.Detector(efficiency=DET_EFF))
+    s = emu.Sampler(w.circ["b"], w.inputs["10"], detector=emu.Detector(efficiency=DET_EFF))
     for op in hist:
         try:
             sampler_apply(s, w, op)
@@ -219,7 +219,7 @@ def quick_apply(q, w, op):
 
 def quick_build(hist, env):
     w = World(env)
-    q = emu.QuickSampler(w.circ["a"], w.inputs["10"])
+    q = emu.QuickSampler(w.circ["b"], w.inputs["10"])
     for op in hist:
         try:
             quick_apply(q, w, op)
